@@ -19,11 +19,13 @@ def fresh_name(sk, names, label="new", letters="acdeghjkmnoqstvwxyz", extra_rese
     return new
 
 
-def run_refactoring(sk, build_op, prop, check_imports=True, require_run_ok=True, extra_reserved=(), post=None, prefs=None, tagger=None):
+def run_refactoring(sk, build_op, prop, check_imports=True, require_run_ok=True, extra_reserved=(), post=None, prefs=None, tagger=None, pin=None):
     """one path: instantiate the skeleton, build the operation (may use choose/sym), call rope,
     judge.  build_op(sk, names, files, cf) -> op dict (values may be proxies) or raises PathAbort"""
     E = core.ENGINE
     names = make_names(sk, extra_reserved)
+    for slot, spelling in (pin or {}).items():
+        names[int(slot)] = spelling  # a slot fixed to one spelling (quick tiers of large skeletons)
     pat = force_partition(names)
     files = instantiate(sk, names)
     m = E.fresh_model()
